@@ -109,11 +109,14 @@ Reset(mm) == [mm EXCEPT !.wroteNow = <<>>, !.dlNow = <<>>, !.cbNow = <<>>]
 \* user behaviours are modelled because they re-enter the protocol: a "retry"
 \* command submits a plain command from its errback (failure or disconnect),
 \* a "chain" command submits one from its success callback.
-RECURSIVE MaybeIssue(_), QueueCmd(_, _, _), React(_, _, _)
+\* A "closer" command's success callback drops the connection; with an in-memory transport the loss is
+\* reported synchronously, i.e. connectionLost runs inside the delivery of that very reply.
+RECURSIVE MaybeIssue(_), QueueCmd(_, _, _), React(_, _, _), LoseM(_)
 \* the user's callbacks on command c's Deferred, run when it has outcome o
 React(mm, c, o) ==
   IF (mm.cmds[c].kind = "retry" /\ o.k \in {"err", "disc"}) \/ (mm.cmds[c].kind = "chain" /\ o.k = "ok")
   THEN QueueCmd(mm, "plain", {})
+  ELSE IF mm.cmds[c].kind = "closer" /\ o.k = "ok" /\ ~mm.lost THEN LoseM(mm)
   ELSE mm
 
 \* d.callback / d.errback on a Deferred that already has the user's callbacks
@@ -299,7 +302,7 @@ Init ==
   /\ cnt = [sub |-> 0, lop |-> 0, post |-> 0, disc |-> 0]
 
 Submit(kind) ==
-  /\ kind \in {"plain", "cb", "retry", "chain"}
+  /\ kind \in {"plain", "cb", "retry", "chain", "closer"}
   /\ m' = QueueCmd(Reset(m), kind, {})
   /\ cnt' = IF m.lost THEN [cnt EXCEPT !.post = @ + 1] ELSE [cnt EXCEPT !.sub = @ + 1]
   /\ UNCHANGED <<pending, cur, replies, nline, nev, reg, exp, may>>
